@@ -302,6 +302,16 @@ def wrapper_enum(rep, F, ids):
     return r
 
 
+def _mismatch_if(st, tail_ok=False):
+    """`if <announced type> != T::message_type() { leave with an error }`"""
+    cond = st["cond"]
+    has_mt = any(is_call(x, "SwiftMessageBody::message_type") for x in walk(cond))
+    ne = cond.get("k") == "bin" and cond.get("op") == "!="
+    leaves = any(x.get("k") == "ret" for x in walk(st["then"])) or \
+        (tail_ok and any(x.get("k") == "call" and (x.get("f") or "").endswith("::Err") for x in walk(st["then"])))
+    return has_mt and ne and leaves
+
+
 def t03(rep, F):
     """typed parse compares the announced type with T::message_type() before parsing block 4"""
     r = rep.rule("D1t", "every generic call T::parse_from_block4 is preceded (dominated, in the statement "
@@ -329,13 +339,21 @@ def t03(rep, F):
             for st in body.get("stmts") or []:
                 if any(x is pc for x in walk(st)):
                     break
-                if st.get("k") == "if":
-                    cond = st["cond"]
-                    has_mt = any(is_call(x, "SwiftMessageBody::message_type") for x in walk(cond))
-                    ne = cond.get("k") == "bin" and cond.get("op") == "!="
-                    leaves = any(x.get("k") == "ret" for x in walk(st["then"]))
-                    if has_mt and ne and leaves:
-                        ok = True
+                if st.get("k") == "if" and _mismatch_if(st):
+                    ok = True
+                # the same test kept in a helper: a crate function called with `?` whose own first-level statements
+                # contain it (`ensure_message_type::<T>(&announced)?`)
+                for x in walk(st):
+                    if x.get("k") == "try" and isinstance(x.get("e"), dict) and x["e"].get("k") in ("call", "mcall"):
+                        hb = F.body_by_path.get(callee(x["e"]))
+                        if hb is not None and "body" in hb and not hb.get("exp") and \
+                                (hb.get("output") or "").startswith("std::result::Result<") and \
+                                isinstance(hb["body"], dict) and hb["body"].get("k") == "block":
+                            hst = list(hb["body"].get("stmts") or [])
+                            if hb["body"].get("expr") is not None:
+                                hst.append(hb["body"]["expr"])
+                            if any(h.get("k") == "if" and _mismatch_if(h, tail_ok=True) for h in hst):
+                                ok = True
             if not ok:
                 rep.add(Finding("D1t", b["path"], "typed-parse",
                                 "%s parses block 4 as T without first rejecting a message whose announced type "
